@@ -78,6 +78,27 @@ Definition account_blocks (rc : render_cfg) (r : report) (dates : list Z) : list
   flat_map (node_blocks rc dates 0 false) (n_children (sorted_al rc r)) ++
   flat_map (node_blocks rc dates 0 true) (n_children (sorted_eie rc r)).
 
+(* the nodes of a tree in depth-first order: (segment, path, own amounts) *)
+Fixpoint tree_lines (n : node) : list (str * account * ramounts) :=
+  match n with
+  | Node s p _ a ch => (s, p, a) :: flat_map tree_lines ch
+  end.
+
+(* the accounts of the table in table order, each with the amounts stored in its node *)
+Definition account_rows (rc : render_cfg) (r : report) : list (account * ramounts) :=
+  map (fun l : str * account * ramounts => (snd (fst l), snd l))
+      (flat_map tree_lines (n_children (sorted_al rc r)) ++ flat_map tree_lines (n_children (sorted_eie rc r))).
+
+(* the name cell of an account line: last segment, indented two columns per level below the top *)
+Definition name_indent (a : account) : Z := 2 * (Z.of_nat (length a) - 1).
+
+(* the lines of one account: name = last segment, sign by account type *)
+Definition acct_lines (rc : render_cfg) (dates : list Z) (p : account) (a : ramounts) : list (list cell) :=
+  match last p [] with
+  | [] => []
+  | _ => line_rows rc dates (name_indent p) (last p []) (negb (is_AL p)) (shown_vals rc p a)
+  end.
+
 (* ---------------------------------------------------------------- the ledger side *)
 
 (* the entries of the independent computation (Spec/LedgerSpec.v), as in ledger_csv *)
@@ -99,8 +120,5 @@ Fixpoint cell_amounts (diff negate : bool) (es : list entry) (sel : account -> b
     (if negate then neg shown else shown) :: cell_amounts diff negate es sel c rest total'
   end.
 
-(* the name cell of an account line: last segment, indented two columns per level below the top *)
-Definition name_indent (a : account) : Z := 2 * (Z.of_nat (length a) - 1).
-
-Definition render_cfg_of (cfg : balance_cfg) : render_cfg :=
+Definition balance_render_cfg (cfg : balance_cfg) : render_cfg :=
   mkRenderCfg (bc_valuation cfg) (bc_details cfg) (bc_alpha cfg) (bc_diff cfg).
